@@ -150,6 +150,10 @@ func Run(prefix []int, maxSteps int, logOn bool, setup func(x *Exec), body func(
 		setup(x)
 	}
 	t := x.newThread("main", body)
+	for _, b := range background {
+		bt := x.newThread("init:"+b.name, b.f)
+		bt.Daemon = true
+	}
 	// hand over to thread 0 and wait until the execution is quiescent
 	x.cur = t
 	t.run = 1
@@ -409,6 +413,12 @@ func (t *Thread) wait(x *Exec) {
 //go:norace
 func Go(name string, f func()) {
 	if e == nil || e.dead {
+		if e == nil && !MainStarted {
+			// a goroutine the code under test starts while its packages are initialised lives as long as the
+			// process: every controlled execution gets its own instance (a thread that starts with the
+			// execution), and the real one serves whatever runs outside executions
+			background = append(background, bg{name, f})
+		}
 		go f()
 		return
 	}
@@ -416,6 +426,17 @@ func Go(name string, f func()) {
 	x.newThread(name, f)
 	Point("spawn "+name, alwaysEnabled)
 }
+
+type bg struct {
+	name string
+	f    func()
+}
+
+var background []bg
+
+// MainStarted is set by the harness when main begins: go statements of the code under test that ran before
+// it ran during package initialisation.
+var MainStarted bool
 
 // GoDaemon is Go for harness-side helper threads.
 //
@@ -608,6 +629,28 @@ func (x *Exec) pick(cur *Thread) *Thread {
 	x.Decisions = append(x.Decisions, Decision{N: len(cands), Chosen: idx, CurEnabled: curEn, Cands: ids})
 	x.lastID = cands[idx].ID
 	return cands[idx]
+}
+
+// Choose is a decision of the schedule that is not a choice between threads: n alternatives, 0 the default.
+// Taking another alternative counts like a preemption.
+//
+//go:norace
+func Choose(n int) int {
+	x := e
+	if x == nil || x.dead || n <= 1 {
+		return 0
+	}
+	idx := 0
+	k := len(x.Decisions)
+	if k < len(x.prefix) {
+		idx = x.prefix[k]
+		if idx < 0 || idx >= n {
+			x.Abort = fmt.Sprintf("prefix-divergence at decision %d: choice %d of %d", k, idx, n)
+			idx = 0
+		}
+	}
+	x.Decisions = append(x.Decisions, Decision{N: n, Chosen: idx, CurEnabled: true})
+	return idx
 }
 
 // Choices returns the choice list of this execution.
